@@ -166,7 +166,7 @@ def _group_of(src):
 
 def corpus(tier):
     """[(group name, properties, [programs])]: every program at -O0 (C01, C15) and at -O1 (C02)."""
-    from . import u_condex, u_cond16, u_arithm, u_assign, u_shift, u_condval, u_gencond
+    from . import u_condex, u_cond16, u_arithm, u_assign, u_shift, u_condval, u_gencond, u_if, u_loops, u_condtail
     groups = {}
     for mod in (u_condex, u_cond16, u_arithm, u_shift):
         for c in mod.candidates(None):
@@ -175,6 +175,10 @@ def corpus(tier):
         groups.setdefault("logical-conditions", []).append(c)
     for c in u_condval.candidates(None):
         groups.setdefault("cond-value", []).append(c)
+    for mod, gname in ((u_if, "if-forms"), (u_loops, "loop-contract-candidates"), (u_condtail, "cond-tail")):
+        for c in mod.candidates(None):
+            if c.get("simulate"):
+                groups.setdefault(gname, []).append(c)
     for c in u_assign.candidates(None):
         if c.get("simulate"):
             groups.setdefault("assign-then-test", []).append(c)
